@@ -813,6 +813,80 @@ def heap_cases(chk, quick):
                           {"harness": req, "model": mline(req)}, no_input=True)
 
 
+# ------------------------------------------------------------------ user-defined cmp / eq / hash
+# struct types whose `cmp` is USER code returning arbitrary integers; the derived operators must follow the
+# SIGN of that result (book/src/std/general.md: "`gt`: Returns whether `cmp(a,b)` is greater than zero")
+USER_CMPS = [
+    ("a::x - b::x", lambda a, b: a - b),
+    ("(a::x - b::x) * 7", lambda a, b: (a - b) * 7),
+    ("(b::x - a::x) * 3", lambda a, b: (b - a) * 3),                      # a reversed order is an order too
+    ("(a::x - b::x) * 1000000007 * 1000000007 * 1000000007", lambda a, b: (a - b) * 1000000007 ** 3),
+    ("if(a::x < b::x, -7, if(a::x > b::x, 2, 0))", lambda a, b: -7 if a < b else (2 if a > b else 0)),
+]
+
+
+def user_cmp_cases(chk, quick):
+    rng = chk.rng
+    prelude = ""
+    for i, (body, _) in enumerate(USER_CMPS):
+        prelude += (f"struct U{i}(x: int, y: int)\n"
+                    f"fn cmp(a: U{i}, b: U{i})->int {{ {body} }}\n"
+                    f"fn eq(a: U{i}, b: U{i})->bool {{ a::x == b::x }}\n"
+                    f"fn hash(a: U{i})->int {{ hash(a::x) }}\n")
+    b2 = lambda v: "(bool true)" if v else "(bool false)"
+    sgn = lambda v: (v > 0) - (v < 0)
+    cases = []   # (op, expr, expected)
+    for _ in range(14 if quick else 300):
+        i = rng.randrange(len(USER_CMPS))
+        ucmp = USER_CMPS[i][1]
+        mk = lambda x, y: f"U{i}({lit(x)}, {y})"
+        xs = [rng.choice([-3, 0, 1, 2, 5, 9, 10, 2**40]) for _ in range(4)]
+        p, q = (xs[0], 0), (xs[1], 1)
+        P, Q = mk(*p), mk(*q)
+        c = ucmp(p[0], q[0])
+        lt_pq, lt_qp = c < 0, ucmp(q[0], p[0]) < 0
+        chk.count(f"usercmp:result:{'>1' if c > 1 else ('<-1' if c < -1 else str(c))}")
+        cases += [("lt", f"{P} < {Q}", b2(c < 0)), ("le", f"{P} <= {Q}", b2(c <= 0)),
+                  ("gt", f"{P} > {Q}", b2(c > 0)), ("ge", f"{P} >= {Q}", b2(c >= 0)),
+                  ("eq", f"{P} == {Q}", b2(p[0] == q[0])), ("ne", f"{P} != {Q}", b2(p[0] != q[0])),
+                  ("cmp", f"cmp({P}, {Q})", f"(int {'S' if -2**63 <= c < 2**63 else 'L'} {c})"),
+                  # include.rs: max = if(lt(a,b), b, a); min = if(lt(b,a), b, a)
+                  ("max", f"max({P}, {Q})::y", f"(int S {1 if lt_pq else 0})"),
+                  ("min", f"min({P}, {Q})::y", f"(int S {1 if lt_qp else 0})"),
+                  ("hash-congr", f"(hash({P}) == hash({Q})) || {P} != {Q}", b2(True)),
+                  # one level inside tuples, sequences, optionals: lexicographic with the user cmp at the leaves
+                  ("tuple-lt", f"({P}, 1) < ({Q}, 1)", b2(c < 0)), ("tuple-gt", f"({P}, 1) > ({Q}, 1)", b2(c > 0)),
+                  ("tuple-ge", f"(0, {P}) >= (0, {Q})", b2(c >= 0)), ("tuple-le", f"(0, {P}) <= (0, {Q})", b2(c <= 0)),
+                  ("tuple-eq", f"({P}, 1) == ({Q}, 1)", b2(p[0] == q[0])),
+                  ("tuple-cmp-sign", f"cmp(({P}, 1), ({Q}, 2)) < 0", b2(c < 0 or c == 0)),
+                  ("tuple-hash-congr", f"(hash(({P}, 1)) == hash(({Q}, 1))) || {P} != {Q}", b2(True)),
+                  ("seq-lt", f"[{P}, {Q}] < [{Q}, {P}]", b2(c < 0)), ("seq-gt", f"[{P}, {Q}] > [{Q}, {P}]", b2(c > 0)),
+                  ("seq-ge-prefix", f"[{P}, {Q}] >= [{P}]", b2(True)), ("seq-ne", f"[{P}] != [{Q}]", b2(p[0] != q[0])),
+                  ("seq-max", f"max([{P}], [{Q}])[0]::y", f"(int S {1 if lt_pq else 0})"),
+                  ("opt-eq", f"some({P}) == some({Q})", b2(p[0] == q[0])), ("opt-ne", f"some({P}) != some({Q})", b2(p[0] != q[0]))]
+        # sorting and selection with the derived (user) cmp: stable by the sign of the user's cmp
+        items = [(x, j) for j, x in enumerate(xs + [rng.choice(xs) for _ in range(rng.choice([0, 2, 20]))])]
+        L = "[" + ", ".join(mk(x, j) for x, j in items) + "]"
+        order = sorted(items, key=functools.cmp_to_key(lambda a, b: sgn(ucmp(a[0], b[0]))))
+        cases.append(("sort", f"{L}.sort().map((t: U{i})->{{t::y}}).to_array()", dump_ints([j for _, j in order])))
+        cases.append(("is-sorted-after-sort", f"{L}.sort().to_array() == {L}.sort().sort().to_array()", b2(True)))
+        k = rng.randrange(len(items))
+        cases.append(("nth_smallest-key", f"{L}.nth_smallest({k})::x", f"(int S {order[k][0]})"))
+        cases.append(("n_largest-keys", f"{L}.n_largest(2).map((t: U{i})->{{t::x}}).to_array()", dump_ints([x for x, _ in order[::-1][:2]])))
+    dumps = eval_exprs([c[1] for c in cases], prelude=prelude)
+    for (op, expr, want), d in zip(cases, dumps):
+        chk.evaluations += 1
+        chk.count("usercmp:" + op)
+        if d != want:
+            kind = "panic" if d.startswith("panic") else ("compile" if d.startswith("compile-err") else "wrong")
+            chk.violation(f"lang:usercmp:{op}:{kind}",
+                          f"with a user-defined cmp/eq/hash on the struct: {expr[:300]} evaluates to {d[:160]}; by the sign of the user's cmp (and the user's eq) it is {want[:160]}",
+                          {"src": prelude + f"let r = {expr};", "get": ["r"], "expected": want, "got": d})
+        else:
+            chk.nontrivial.add(("usercmp", op, expr))
+    chk.sample({"lang": cases[2][1], "prelude": prelude[:160], "expected": cases[2][2]})
+
+
 def _resp_fail_local(r):
     if "panic" in r:
         return "panic " + r["panic"]
@@ -903,6 +977,7 @@ def run(chk):
     heap_cases(chk, quick)
     select_cases(chk, quick)
     derive_cases(chk, quick)
+    user_cmp_cases(chk, quick)
     format_cases(chk, quick)
     regression_cases(chk)
     if not quick:
